@@ -291,6 +291,8 @@ class Group:
         del node.children[leaf]
 
     def __setitem__(self, path, value):
+        if path in self:
+            raise OSError("Unable to create link (name already exists)")
         self.create_dataset(path, data=value)
 
     def keys(self):
